@@ -25,6 +25,9 @@ if "cursor" in sections or len(sys.argv) == 1:
 if "writer" in sections or len(sys.argv) == 1:
     from rules import writertab
     tab["writer"] = writertab.table(prog)
+if "ifdatawriter" in sections or len(sys.argv) == 1:
+    from rules import writertab
+    tab["ifdatawriter"] = writertab.ifdata_table(prog)
 if "limits" in sections:
     from rules import c12
     tab["limits"] = c12.limits_table(prog)
